@@ -75,6 +75,8 @@ class World:
         self.error = None
         self.log = []                    # completed collectives (kind, root)
         self.ret = [None] * size
+        self.steps = 0
+        self.max_steps = 20000
         self.exc = [None] * size
 
     # ---- called from rank threads
@@ -203,6 +205,11 @@ class World:
                         waiting = [r for r in range(self.size) if self.state[r] == 'waiting']
                         self.error = Deadlock('ranks %r wait at a collective that ranks %r never reach (finished)' % (
                             waiting, [r for r in range(self.size) if self.state[r] == 'done']))
+                        break
+                    self.steps += 1
+                    if self.steps > self.max_steps:
+                        # explicit horizon: ranks keep reaching collectives but nobody ever finishes
+                        self.error = Deadlock('livelock: more than %d scheduling steps without completion' % self.max_steps)
                         break
                     c = self.choose(len(enabled))
                     r = enabled[c]
